@@ -424,6 +424,40 @@ func buildC07(tier string) *core.Plan {
 			c07Invariant(c, "no-stray-marker-multidoc", wit, outs, err)
 		}}
 
+	// a marker that is the whole payload: scalar $encode payloads and root-scalar documents
+	scalarSpace := core.Space{Name: "scalar-payloads", N: int64(len(c07StrMarkers)), Chunk: 1,
+		Desc: func(i int64) any { return c07StrMarkers[i] },
+		Run: func(c *core.Ctx, i int64) {
+			mk := c07StrMarkers[i]
+			docs := []any{
+				mk,
+				[]any{mk},
+				map[string]any{"e": map[string]any{"$encode": "base64", "$value": mk}},
+				map[string]any{"e": map[string]any{"$encode": "sha256", "$value": mk}},
+				map[string]any{"e": map[string]any{"$encode": []any{"json", "base64"}, "$value": mk}},
+				map[string]any{"e": []any{mk, map[string]any{"$encode": "join:,"}}},
+				map[string]any{"e": map[string]any{"$encode": "values", "k": mk}},
+				map[string]any{"e": map[string]any{"$value": mk}},
+			}
+			for _, d := range docs {
+				c.Eval()
+				c.Trans(2)
+				outs, err := evalTree(d)
+				c.Validated()
+				c.NontrivialSub()
+				w := "scalar-payload: " + core.Canon(d)
+				if !c07Invariant(c, "no-stray-marker-scalar", w, outs, err) {
+					return
+				}
+				// $merge / $replace / $repeat:/... strings are evaluated, the rest must be refused outright
+				if err == nil && (mk == "$required" || mk == "$foo" || mk == "$delete" || mk == "$match" || mk == "$invert" || mk == "$merg") {
+					c.Outcome("MARKER-ACCEPTED")
+					c.Fail("marker-is-refused", "marker-hidden-or-accepted", w, map[string]any{"output": outs})
+					return
+				}
+			}
+		}}
+
 	// YAML anchors: a marker behind an anchor that is aliased into a visible place
 	yamlMarkers := []string{"$required", "$foo", "$delete", "{$match: 1}", "{$output: x}", "[$replace]"}
 	tmpls := []string{
@@ -454,7 +488,7 @@ func buildC07(tier string) *core.Plan {
 		}}
 
 	return &core.Plan{
-		Spaces: []core.Space{inject, required, multiDoc, yamlSpace},
+		Spaces: []core.Space{inject, required, multiDoc, scalarSpace, yamlSpace},
 		Rule: "every single injection of every marker (15 string markers as value/entry/key, 10 directive keys x 5 argument kinds with and without an extra key) into every base tree, " +
 			"each evaluated plain, under $output: false, re-selected by $output: true below a hidden parent, inside $encode: json and as a lower layer; every lower layer with $required at any positions x every subset overridden",
 		Assumptions: []string{"invariant: a successful output contains no key or string equal to $required or matching ^\\$\\p{Ll} (inputs contain no $$)",
